@@ -249,7 +249,9 @@ theorem frag_second_pass_tokens (f2 : File) (hwf : f2.wf = true) :
   rw [h1, ← toksL_proj_false, hl, toksL_proj_false, items_toks_lexM]
 
 /-- FIXED POINT FOR COMMENT-FREE FILES. For every well-formed file of the fragment without comments
-    (nested sets / `rec` sets / lists / bindings / leaves with arbitrary whitespace, any depth), the
+    (nested sets / `rec` sets / lists / bindings / leaves with arbitrary whitespace, any depth; `File.cf`
+    is false for files with parentheses or function calls — the tree normaliser `File.norm` has not
+    been extended to them yet), the
     text the round trip writes is the flattening of the well-formed comment-free tree `File.norm f`
     — the round trip IS that tree normaliser (`file_rt`: one line break per item of a container
     that spans lines, blank lines kept as one, two-space indentation, values on their own line
